@@ -501,6 +501,18 @@ Proof.
     split; [apply coherent_with_rep; [exact C|apply tocsc_same; exact W]|reflexivity].
   - tauto.
   - tauto.
+  - split; [|reflexivity]. apply coherent_with_rep; [exact C|].
+    pose proof (elim_same _ W) as S1. assert (W1 : wf_rep (r_elim (rep s))) by (destruct S1; assumption).
+    pose proof (tocsr_same _ W1) as S2. assert (W2 : wf_rep (r_tocsr (r_elim (rep s)))) by (destruct S2; assumption).
+    exact (same_trans _ _ _ (same_trans _ _ _ S1 S2) (tocsc_same _ W2)).
+  - assert (H1 : coherent (if Nat.eqb (rep_rows (rep s)) 0 then s else with_rep s (r_tocsr (rep s))) /\
+                 cont (if Nat.eqb (rep_rows (rep s)) 0 then s else with_rep s (r_tocsr (rep s))) = cont s).
+    { destruct (Nat.eqb (rep_rows (rep s)) 0); [tauto|].
+      split; [apply coherent_with_rep; [exact C|apply tocsr_same; exact W]|reflexivity]. }
+    destruct H1 as [C1 E1]. set (s1 := if Nat.eqb (rep_rows (rep s)) 0 then s else with_rep s (r_tocsr (rep s))) in *.
+    assert (W1 : wf_rep (rep s1)) by (destruct C1; tauto).
+    destruct (Nat.eqb (rep_cols (rep s1)) 0); [tauto|].
+    split; [apply coherent_with_rep; [exact C1|apply tocsc_same; exact W1]|exact E1].
 Qed.
 
 Theorem copy_coherent s : coherent s -> coherent (copy_state s) /\ cont (copy_state s) = cont s.
